@@ -18,7 +18,6 @@ import (
 	"cmp"
 	"log/slog"
 	"net/http"
-	"strconv"
 	"time"
 )
 
@@ -70,19 +69,27 @@ func calculateCurrentAge(
 	h http.Header,
 	date, requestTime, responseTime time.Time,
 ) *Age {
-	ageVal := 0
-	if ageStr := h.Get("Age"); ageStr != "" {
-		ageVal, _ = strconv.Atoi(ageStr)
-	}
+	// An Age that is not a valid delta-seconds (empty, negative, garbage) is
+	// ignored; one that is too large saturates (RFC 9111 §1.2.2).
+	ageVal, _ := RawDeltaSeconds(h.Get("Age")).Value()
 	apparentAge := max(responseTime.Sub(date), 0)
 	responseDelay := max(responseTime.Sub(requestTime), 0)
-	correctedAgeValue := time.Duration(ageVal)*time.Second + responseDelay
+	correctedAgeValue := addDuration(ageVal, responseDelay)
 	correctedInitialAge := max(apparentAge, correctedAgeValue)
 	residentTime := max(clock.Since(responseTime), 0)
 	return &Age{
-		Value:     correctedInitialAge + residentTime,
+		Value:     addDuration(correctedInitialAge, residentTime),
 		Timestamp: clock.Now(),
 	}
+}
+
+// addDuration returns a+b for non-negative durations, saturating at the
+// maximum duration instead of wrapping around.
+func addDuration(a, b time.Duration) time.Duration {
+	if a > maxDuration-b {
+		return maxDuration
+	}
+	return a + b
 }
 
 const maxDuration = 1<<63 - 1
